@@ -237,3 +237,9 @@ func H_C01_flat_masks() {
 	}
 	vCover("ran")
 }
+
+func init() { vHarnesses["H_C01_flat_filter_reuse"] = H_C01_flat_filter_reuse }
+
+// id restrictions of very different sizes one after the other on the flat index (pooled restriction objects):
+// see hFilterReuse
+func H_C01_flat_filter_reuse() { hFilterReuse(vKFlat) }
